@@ -676,9 +676,9 @@ def nontrivial(case, verdict):
 
 # failure classes that exist on the unchanged tree (known_findings.json); a case that fails for one of
 # these AND for another reason is reported under the other reason, so a finding never masks a new failure
-DOCUMENTED = ("transparent:populate-assert-undeclared-output-shape",
-              "isolation:stale-trace-file-of-never-registered-rank",
+DOCUMENTED = ("transparent:insertion-write-trace-needs-declared-output-shape",
               "numIters:format-U-rank-has-no-iter-rows")
+STALE = "isolation:stale-trace-file-of-never-registered-rank"      # repaired: a failure again if it comes back
 
 
 def _classes(why):
@@ -687,12 +687,12 @@ def _classes(why):
         c = clause.strip()
         if not c or "model" in c.split(":")[0] and "impl" in c:
             continue
-        if "assert insert_pos is not None" in c:
+        if "insert_pos is not None" in c:
             out.append(DOCUMENTED[0])
         elif "stale rows" in c:
-            out.append(DOCUMENTED[1])
+            out.append(STALE)
         elif "format-U rank" in c:
-            out.append(DOCUMENTED[2])
+            out.append(DOCUMENTED[1])
         else:
             for key in ("transparent", "exact", "numIters", "isolation", "dump()", "session returns",
                         "class attributes after", "kernel fails with collection off"):
